@@ -6,7 +6,7 @@ CONSTANTS
   CrashOdds = 4
   F8Fixed = FALSE
   F9Fixed = FALSE
-  F15Fixed = FALSE
+  FccFixed = FALSE
   CommitBeforeCheckpoint = TRUE
   EnvAtomic = TRUE
 INVARIANTS Dump
